@@ -98,6 +98,8 @@ func runC09(a *A) {
 	c09R3R4(a, cd)
 	c09R5(a)
 	c09R6(a)
+	// R7: splitting rows and decoding cells is a function of the event and the table map alone
+	statelessRule(a, "C09-R7", "Rows/cellLength/CellBytes", []*ssa.Function{cd.lenFn, cd.valFn, a.W.method(a.W.Repl, "binlogEvent", "Rows"), a.W.method(a.W.Repl, "binlogEvent", "TableMap")}, a.W.Repl)
 }
 
 // R6: the rows-event header per event type (v1 23/24/25, v2 30/31/32) and post-header size: which images exist, whether the
